@@ -1,1 +1,49 @@
-// refgql
+//! `refgql` — an independent reference GraphQL front end, hand-written from the June 2018
+//! specification (no code shared with, or derived from, relay's `graphql-syntax` or isograph's
+//! `graphql_schema_parser`). It is the oracle of several checks (C09, C29, C30).
+//!
+//! # Parsing
+//! ```
+//! let doc = refgql::parse_executable("query Q($a: Int = 1) { f(x: $a, s: \"a\\u0041\") }").unwrap();
+//! let sdl = refgql::parse_schema("type Query { f(x: Int, s: String): Int }").unwrap();
+//! assert!(refgql::parse_executable("{ f(x: 01) }").is_err());
+//! # let _ = (doc, sdl);
+//! ```
+//! * [`parse_document`] (any definitions), [`parse_executable`], [`parse_schema`];
+//!   [`parse_with`] takes [`ParseOptions`] (`post_2018`, lexer options) and also returns
+//!   [`SourceFacts`]. Errors are [`SyntaxError`]`{kind, message, pos}`.
+//! * The tree is [`ast::Document`]. All nodes compare **modulo spans**. Numbers are kept as written
+//!   (`Value::Int("-0")`), strings by value (`Value::String(StringValue{value, block})`).
+//! * [`print_document`] is the canonical printer (`parse(print(d)) == d` up to block flags).
+//!
+//! # Validation
+//! ```
+//! let sdl = refgql::parse_schema("type Query { f(x: Int!): Int }").unwrap();
+//! let schema = refgql::Schema::build(&[&sdl]).unwrap();
+//! let doc = refgql::parse_executable("{ f }").unwrap();
+//! let errors = refgql::validate(&schema, &doc);
+//! assert_eq!(errors[0].rule, refgql::Rule::RequiredArguments);
+//! ```
+//! [`Schema::build`] merges any number of SDL documents (definitions and `extend …`), adds the
+//! built-in scalars, `@skip`/`@include`/`@deprecated` and the introspection types.
+//! [`validate`] implements section 5 of the specification; every error names its [`Rule`].
+//! Directives that are not defined in the schema are reported under [`Rule::KnownDirectives`]
+//! so that callers can treat them separately (see [`ValidationError::is_unknown_directive`]).
+
+pub mod ast;
+pub mod lexer;
+pub mod parser;
+pub mod printer;
+pub mod schema;
+pub mod validate;
+pub mod visit;
+
+pub use ast::*;
+pub use lexer::{block_string_value, lex, LexOptions, SyntaxError, SyntaxErrorKind, Token, TokenKind};
+pub use parser::{
+    parse_document, parse_executable, parse_schema, parse_type, parse_value, parse_with, DocumentKind, ParseOptions,
+    SourceFacts,
+};
+pub use printer::{normalize_block_flags, print_document, print_quoted_string, print_value};
+pub use schema::{Schema, SchemaError};
+pub use validate::{validate, Rule, ValidationError};
